@@ -1,4 +1,4 @@
-import OpusProofs.SoftClipField
+import OpusProofs.SoftClipFull
 import Mathlib.Algebra.Order.Field.Rat
 /-
   Property C19 — "Soft clipping and decoder gain post-processing obey their contracts".
@@ -59,24 +59,61 @@ example : ∀ j, j < 2 * 2 → |(#[1, -1, 1/3, 0] : Array ℚ).getD j 0| ≤ 1 :
   have : j = 0 ∨ j = 1 ∨ j = 2 ∨ j = 3 := by omega
   rcases this with rfl | rfl | rfl | rfl <;> norm_num
 
-/-- **bounded_sign_excursion_partial** (ordered field; P1).  The non-linearity the code applies to an
-    excursion — `v ↦ v + a·v·v` with `a = (maxval-1)/maxval²`, boosted by `a += a·eps` for any
-    `0 ≤ eps ≤ 1` (the code's 2.4e-7), negated when the excursion is positive — maps every sample of
-    the excursion (`|v| ≤ maxval`, `1 < maxval ≤ 2` thanks to the ±2 pre-saturation, on the same side of
-    zero as the detected sample `xi`) into [-1, 1] and keeps its sign.
-    PARTIAL: the full statements `∀ input, every output sample of opus_pcm_soft_clip is in [-1,1]` and
-    `… has the sign of its input` additionally need (a) the continuation of the previous frame's curve
-    (opus.c:60-65), (b) the frame-start ramp (explicitly clamped to ±1 by the code), (c) the invariant of
-    the loop over excursions; these are not proved (searched on the implementation, S4). -/
-theorem bounded_sign_excursion_partial {F : Type} [Field F] [LinearOrder F] [IsStrictOrderedRing F]
-    (eps maxval xi v : F) (he0 : 0 ≤ eps) (he1 : eps ≤ 1) (hm1 : 1 < maxval) (hm2 : maxval ≤ 2)
-    (hxi : xi ≠ 0) (hside : 0 ≤ xi * v) (hv : |v| ≤ maxval) :
-    |@nl F (fieldOps eps) (@coefA F (fieldOps eps) maxval xi) v| ≤ 1 ∧
-    0 ≤ v * @nl F (fieldOps eps) (@coefA F (fieldOps eps) maxval xi) v :=
-  excursion_map_bounded eps maxval xi v he0 he1 hm1 hm2 hxi hside hv
+/-- **bounded_sign_preserved** (ordered field; whole call, any channel count).  For every buffer of the
+    declared size, every boost constant `0 ≤ eps < 1` (the code's is 2.4e-7) and memories within
+    `(1+eps)/4` (zero-initialised memory is; the bound is re-established by every call, so it holds along any
+    sequence of frames sharing the memory): the call succeeds, every output sample lies in [-1, 1], no
+    sample changes sign (a positive input stays positive, a negative one negative — strict), and the
+    memories left behind are again within `(1+eps)/4`.  Covers the ±2 pre-saturation, the continuation of
+    the previous frame's curve, every excursion with its boosted coefficient, the start-of-frame ramp
+    (`offset = delta*(peak_pos-1-i)`, exactly 0 at the peak) and the loop over excursions. -/
+theorem bounded_sign_preserved {F : Type} [Field F] [LinearOrder F] [IsStrictOrderedRing F] (eps : F)
+    (he0 : 0 ≤ eps) (he1 : eps < 1) (x mem : Array F) (N C : Nat) (hN : 1 ≤ N) (hC : 1 ≤ C)
+    (hsz : x.size = N * C) (hm : mem.size = C) (hmem : ∀ c, c < C → |mem.getD c 0| ≤ (1 + eps) / 4) :
+    ∃ y m', @softClip F (fieldOps eps) false false x mem (N : Int) (C : Int) = .ok (y, m') ∧
+      y.size = N * C ∧ m'.size = C ∧
+      (∀ j, j < N * C → |y.getD j 0| ≤ 1 ∧ (0 < x.getD j 0 → 0 < y.getD j 0) ∧ (x.getD j 0 < 0 → y.getD j 0 < 0)) ∧
+      (∀ c, c < C → |m'.getD c 0| ≤ (1 + eps) / 4) :=
+  softClip_bound eps he0 he1 x mem N C hN hC hsz hm hmem
 
-example : (0 : ℚ) ≤ 1/4194304 ∧ (1/4194304 : ℚ) ≤ 1 ∧ (1 : ℚ) < 3/2 ∧ (3/2 : ℚ) ≤ 2 ∧ (3/2 : ℚ) ≠ 0 ∧
-    (0 : ℚ) ≤ 3/2 * (5/4) ∧ |(5/4 : ℚ)| ≤ 3/2 := by norm_num
+example : (0 : ℚ) ≤ 1/4194304 ∧ (1/4194304 : ℚ) < 1 ∧ (#[3/2, -3, 1/2, 100, -1/7, 0] : Array ℚ).size = 3 * 2 ∧
+    (#[0, 1/8] : Array ℚ).size = 2 ∧ ∀ c, c < 2 → |(#[0, 1/8] : Array ℚ).getD c 0| ≤ (1 + 1/4194304) / 4 := by
+  refine ⟨by norm_num, by norm_num, rfl, rfl, fun c hc => ?_⟩
+  have : c = 0 ∨ c = 1 := by omega
+  rcases this with rfl | rfl <;> norm_num
+
+/-- **bounded** (ordered field).  Every output sample of `opus_pcm_soft_clip` lies in [-1, 1]. -/
+theorem bounded {F : Type} [Field F] [LinearOrder F] [IsStrictOrderedRing F] (eps : F)
+    (he0 : 0 ≤ eps) (he1 : eps < 1) (x mem : Array F) (N C : Nat) (hN : 1 ≤ N) (hC : 1 ≤ C)
+    (hsz : x.size = N * C) (hm : mem.size = C) (hmem : ∀ c, c < C → |mem.getD c 0| ≤ (1 + eps) / 4) :
+    ∃ y m', @softClip F (fieldOps eps) false false x mem (N : Int) (C : Int) = .ok (y, m') ∧
+      ∀ j, j < N * C → |y.getD j 0| ≤ 1 := by
+  obtain ⟨y, m', h1, _, _, h4, _⟩ := softClip_bound eps he0 he1 x mem N C hN hC hsz hm hmem
+  exact ⟨y, m', h1, fun j hj => (h4 j hj).1⟩
+
+/-- **sign_preserved** (ordered field).  No output sample has the opposite sign of its input. -/
+theorem sign_preserved {F : Type} [Field F] [LinearOrder F] [IsStrictOrderedRing F] (eps : F)
+    (he0 : 0 ≤ eps) (he1 : eps < 1) (x mem : Array F) (N C : Nat) (hN : 1 ≤ N) (hC : 1 ≤ C)
+    (hsz : x.size = N * C) (hm : mem.size = C) (hmem : ∀ c, c < C → |mem.getD c 0| ≤ (1 + eps) / 4) :
+    ∃ y m', @softClip F (fieldOps eps) false false x mem (N : Int) (C : Int) = .ok (y, m') ∧
+      ∀ j, j < N * C → (0 < x.getD j 0 → 0 < y.getD j 0) ∧ (x.getD j 0 < 0 → y.getD j 0 < 0) := by
+  obtain ⟨y, m', h1, _, _, h4, _⟩ := softClip_bound eps he0 he1 x mem N C hN hC hsz hm hmem
+  exact ⟨y, m', h1, fun j hj => (h4 j hj).2⟩
+
+/-- **ramp_term_exact** (ordered field).  The start-of-frame ramp adds `delta·(peak-1-j)` to sample `j` and
+    clamps to ±1; at the last ramp sample `j = peak-1` the added term is exactly 0 (the former residue of the
+    repeated subtraction `offset -= delta` cannot occur). -/
+theorem ramp_term_exact {F : Type} [Field F] [LinearOrder F] [IsStrictOrderedRing F] (eps : F)
+    (x : Array F) (delta : F) (i peak : Nat) :
+    (∀ j, (@rampLoop F (fieldOps eps) x 1 0 delta i peak).getD j 0 =
+      if i ≤ j ∧ j < peak ∧ j < x.size then clamp1 (x.getD j 0 + delta * ((peak - 1 - j : Nat) : F)) else x.getD j 0) ∧
+    (1 ≤ peak → i ≤ peak - 1 → peak - 1 < x.size →
+      (@rampLoop F (fieldOps eps) x 1 0 delta i peak).getD (peak - 1) 0 = clamp1 (x.getD (peak - 1) 0)) := by
+  obtain ⟨_, h⟩ := rampLoop_spec eps x delta i peak
+  refine ⟨h, fun h1 h2 h3 => ?_⟩
+  have := h (peak - 1)
+  rw [if_pos ⟨h2, by omega, h3⟩, Nat.sub_self, Nat.cast_zero, mul_zero, add_zero] at this
+  exact this
 
 /-- **gain_frame_condition**.  The decoder gain touches nothing but the sample values: the return value
     (sample count), `rangeFinal` and the number of samples are those of the gain-0 decode; gain 0 leaves
